@@ -280,8 +280,8 @@ fn op_steady(cfg: &str, pushes: &[Vec<u8>]) -> String {
     log::set_max_level(log::LevelFilter::Off);
     let mut d = Demultiplex::new(&mut ctx);
     let mut off = 0;
-    let mut counts = vec![];
-    let mut constructs = vec![];
+    let mut counts = Vec::with_capacity(pushes.len() + 1);
+    let mut constructs = Vec::with_capacity(pushes.len() + 1);
     for (i, p) in pushes.iter().enumerate() {
         let c0 = ctx.n_construct;
         let a0 = N_ALLOCS.load(Ordering::Relaxed);
@@ -309,7 +309,7 @@ fn op_retain(cfg: &str, block: &[u8], rounds: usize) -> String {
     ctx.quiet = true;
     log::set_max_level(log::LevelFilter::Off);
     let mut d = Demultiplex::new(&mut ctx);
-    let mut live = vec![];
+    let mut live = Vec::with_capacity(rounds + 1);
     for _ in 0..rounds {
         d.push(&mut ctx, block);
         live.push(LIVE_BYTES.load(Ordering::Relaxed));
